@@ -198,7 +198,12 @@ func (ex *Exec) writeEvidence(cfg *PropConfig, tier string, seed int, reps []*Fu
 		"SMT solvers z3 4.8.12, z3 5.1.0, cvc5 1.0.3 (an obligation counts as discharged on unsat from any one)",
 		"Go semantics as encoded: linux/amd64, integers are bit-vectors (machine arithmetic), floats IEEE-754 RNE, out-of-range float→int conversion unspecified")
 	for _, k := range sortedBoolKeys(ex.usedExtern) {
-		trusted = append(trusted, "assumed dependency contract: "+k)
+		switch {
+		case strings.HasPrefix(k, "helper "), strings.HasPrefix(k, "clause of "):
+			trusted = append(trusted, "note: "+k)
+		default:
+			trusted = append(trusted, "assumed dependency contract: "+k)
+		}
 	}
 	assumptions := append([]string(nil), cfg.Assumption...)
 	assumptions = append(assumptions, "sequential execution of each function under proof; partial correctness (termination not proved)")
